@@ -26,3 +26,4 @@ def run(chk):
     X.rule_memory_per_key_locality(chk, "C13.12")
     X.rule_memo_sentinel(chk, "C13.13")
     X.rule_charset_agreement(chk, "C13.14")
+    X.rule_keystream_length(chk, "C13.15")
